@@ -76,6 +76,9 @@ func (p *c09prop) Plan(tier string, seed int64) []core.Segment {
 		{Kind: "symbolic", N: fam * 100},
 		{Kind: "runpattern", N: fam * 60},
 		{Kind: "big", N: big, Chunk: 1},
+		{Kind: "randk", N: fam},
+		{Kind: "glitch", N: fam},
+		{Kind: "twins", N: fam / 4},
 		{Kind: "overlap", N: 3 * tierScale(tier, 5), Chunk: 1},
 	}
 }
@@ -451,6 +454,49 @@ func (p *c09prop) Gen(kind string, idx int64, seed int64, tier string) core.Case
 			sc = SfxCase{Text: symText(r), Family: "symbolic"}
 		case "runpattern":
 			sc = SfxCase{Text: runPattern(r), Family: "runpattern"}
+		case "randk":
+			// random texts of 100-4000 bytes over 3 to 8 letters: buckets
+			// of more than seven B* substrings with equal sections that mix
+			// ended and longer substrings
+			k := 3 + r.Intn(6)
+			t := make([]byte, 100+r.Intn(1+r.Intn(3900)))
+			for i := range t {
+				t[i] = 'a' + byte(r.Intn(k))
+			}
+			sc = SfxCase{Text: t, Family: "randk"}
+		case "glitch":
+			// short periods (2-8 bytes over 3-5 letters) with a few glitches,
+			// 20-600 bytes: many B* substrings per bucket that are equal up
+			// to some depth, some of them ending there
+			k := 3 + r.Intn(3)
+			per := make([]byte, 2+r.Intn(7))
+			for i := range per {
+				per[i] = 'a' + byte(r.Intn(k))
+			}
+			t := make([]byte, 20+r.Intn(1+r.Intn(580)))
+			for i := range t {
+				t[i] = per[i%len(per)]
+			}
+			for g := r.Intn(5); g > 0; g-- {
+				t[r.Intn(len(t))] = 'a' + byte(r.Intn(k))
+			}
+			sc = SfxCase{Text: t, Family: "glitch"}
+		case "twins":
+			// B* substrings that agree in their first 250-700 bytes and
+			// differ later: blocks x c^L y with equal L and different y
+			var t []byte
+			c := byte('c' + r.Intn(3))
+			for blocks := 2 + r.Intn(5); blocks > 0; blocks-- {
+				l := 250 + r.Intn(450)
+				for rep := 1 + r.Intn(3); rep > 0; rep-- {
+					t = append(t, 'a'+byte(r.Intn(2)))
+					for i := 0; i < l; i++ {
+						t = append(t, c)
+					}
+					t = append(t, 'a'+byte(r.Intn(int(c-'a')+3)))
+				}
+			}
+			sc = SfxCase{Text: t, Family: "twins"}
 		case "bstar":
 			n := 20 + r.Intn(1+r.Intn(6000))
 			sc = SfxCase{Text: bstarText(r, n), Family: "bstar"}
